@@ -381,20 +381,21 @@ func checkTransportErrorsClassified(p *core.Prog, r *core.Report, rule string) {
 		}
 	}
 	n := 0
-	for _, b := range fn.Blocks {
+	for _, b := range famBlocks {
+		m := b.Parent()
 		for _, in := range b.Instrs {
 			if !isTransport(in) {
 				continue
 			}
 			c := in
-			nonNil := errNonNilEdges(fn, c)
+			nonNil := errNonNilEdges(m, c)
 			if len(nonNil) == 0 {
 				core.Undecide("RemoteWorker.work: the error of %s is not tested against nil", c.(*ssa.Call).Call.Method.Name())
 			}
 			n++
 			for _, e := range nonNil {
 				e := e
-				q := core.PathQuery{Fn: fn,
+				q := core.PathQuery{Fn: m,
 					CutInstr: func(x ssa.Instruction) bool { return isRetry(x) || isTransport(x) },
 					CutEdge: func(x core.Edge) bool {
 						return containsEdge(cut, x) || (x.From == e.From && x.Idx != e.Idx)
